@@ -27,6 +27,9 @@ pub struct FaultCase {
 	/// attach the file hooks (certificate and account) too
 	#[serde(default)]
 	pub file_hooks: bool,
+	/// Retry-After value sent with authorization and order objects
+	#[serde(default)]
+	pub retry_after: Option<String>,
 }
 
 pub struct Attempt {
@@ -174,7 +177,7 @@ fn run_case_in(case: &FaultCase, acmed: &std::path::Path, dir: &std::path::Path,
 	let lay = Layout::new(dir);
 	let coll = HookCollector::start(dir)?;
 	let ids: Vec<(String, String)> = IDS.iter().map(|(n, _)| ("dns".to_string(), n.to_string())).collect();
-	let plan = CaPlan { faults: case.faults.clone(), not_after_s: 86400, nonce_on_get: case.nonce_on_get, ..CaPlan::default() };
+	let plan = CaPlan { faults: case.faults.clone(), not_after_s: 86400, nonce_on_get: case.nonce_on_get, retry_after: case.retry_after.clone(), ..CaPlan::default() };
 	let ca = MockCa::start(plan, vec![(bb::ident_key(&ids), "c1".to_string())])?;
 	let crt_path = lay.certs.join("c1_ecdsa-p256.crt.pem");
 	let key_path = lay.certs.join("c1_ecdsa-p256.pk.pem");
